@@ -109,6 +109,7 @@ func init() {
 				delete(agentReg, k) // one run at a time per process
 			}
 			agentReg[r] = newAgents(w, r)
+			installPrevSet(w, r)
 			for i, k := range phaseCfg {
 				minersc.PhaseRounds[minersc.Phase(i)] = r.Plan.CfgInt(k, 2)
 			}
